@@ -1,6 +1,6 @@
 SPECIFICATION Spec
 CONSTANTS
-  Levels = {0, 1, 3}
+  Levels = {0, 1, 2, 3, 4, 5, 6}
   Obs <- ObsEmit
 INVARIANTS TypeOK LevelZeroIsSoft SoftAlwaysAllowed
 CHECK_DEADLOCK FALSE
